@@ -5,9 +5,11 @@ import (
 	"flag"
 	"fmt"
 	"io"
+	"os"
 	"reflect"
 	"runtime/debug"
 	"sort"
+	"strconv"
 	"strings"
 	"sync"
 	"time"
@@ -43,7 +45,11 @@ var initOnce sync.Once
 // no sleeping in retries, no 1 ms error throttle.
 func GlobalInit() {
 	initOnce.Do(func() {
-		debug.SetGCPercent(400)
+		gc := 100
+		if v, err := strconv.Atoi(os.Getenv("VERIF_GOGC")); err == nil {
+			gc = v
+		}
+		debug.SetGCPercent(gc)
 		fs := flag.NewFlagSet("klog", flag.ContinueOnError)
 		klog.InitFlags(fs)
 		fs.Set("logtostderr", "false")
